@@ -46,6 +46,11 @@ def det_fixture(rng, nc=3, npred=4, nref=2, n=2):
         refs[i, :, 4] = 1.0
         cls = rng.integers(nc, size=nref)
         refs[i, np.arange(nref), 5 + cls] = 1.0
+        if rng.random() < 0.6:
+            # targets taken from a detector's own predictions: class PROBABILITY vectors, not one-hot
+            # (added after a seeded change that dropped the reference-norm factor of the class cosine was missed)
+            refs[i, :, 5:] = rng.integers(0, 4, size=(nref, nc)) / 4.0
+            refs[i, :, 5] += 0.25
     return preds, refs
 
 
